@@ -5,7 +5,7 @@
     the model's out-of-budget marker [Fuel]. *)
 From Coq Require Import List NArith ZArith Bool.
 From TwLib Require Import PyInt WireIter WireDns WireDnsTotal.
-From C33 Require Import Model.
+From C33 Require Import Model ProofsTcp.
 Import ListNotations.
 Open Scope N_scope.
 
@@ -55,3 +55,38 @@ Theorem record_decoding_total : forall (msg : list N) (ts : list fty) (pos rdlen
   bytes_ok msg -> safe (dec_fields msg ts pos rdlen).
 Proof. intros msg ts pos rdlen BO. exact (dec_fields_safe msg BO ts pos rdlen). Qed.
 Print Assumptions record_decoding_total.
+
+(** ---- the TCP path: DNSProtocol.dataReceived (2-byte length prefix), REPAIRED form ---- *)
+
+(** the result does not depend on how the byte stream is cut into segments (1-byte first segment,
+    prefix split in two, several messages in one segment, ...): same messages handed on in the same
+    order, same exception; and the same framing state when nothing was raised.  [bad] is any
+    "fromStr raises" predicate. *)
+Theorem tcp_segmentation_independent : forall (bad : list N -> option pyexn) (segments : list (list N)),
+  let a := ffeed_all bad (finit) segments in
+  let b := ffeed bad (finit) (concat segments) in
+  f_outs a = f_outs b /\ f_err a = f_err b /\ (f_err a = None -> f_len a = f_len b /\ f_buf a = f_buf b).
+Proof. exact tcp_any_split. Qed.
+Print Assumptions tcp_segmentation_independent.
+
+(** with Message.fromStr as the consumer, any byte stream under any segmentation makes dataReceived
+    raise nothing but EOFError or ValueError *)
+Theorem tcp_only_malformed_packet_errors : forall (segments : list (list N)) (e : pyexn),
+  bytes_ok (concat segments) -> f_err (ffeed_all dns_bad finit segments) = Some e -> e = EOFError \/ e = ValueError.
+Proof. exact tcp_errors_allowed. Qed.
+Print Assumptions tcp_only_malformed_packet_errors.
+
+(** a stream of well-framed messages is delivered completely and in order, nothing left over *)
+Theorem tcp_frames_delivered : forall (bad : list N -> option pyexn) (frames : list (list N)) (outs : list (list N)),
+  Forall (fun f => bad f = None /\ blen f < 65536) frames ->
+  frun bad (ffuel (concat (map (fun f => to_be 2 (blen f) ++ f) frames))) None
+       (concat (map (fun f => to_be 2 (blen f) ++ f) frames)) outs
+  = mkF None [] (outs ++ frames) None true.
+Proof. exact frames_delivered. Qed.
+Print Assumptions tcp_frames_delivered.
+
+(** the framing loop ends within its budget 2 * len + 2 *)
+Theorem tcp_loop_terminates : forall (bad : list N -> option pyexn) (len : option N) (buf : list N) (outs : list (list N)),
+  f_fuel_ok (frun bad (ffuel buf) len buf outs) = true.
+Proof. intros bad len buf outs. exact (frunL_fuel_ok bad (fmu len buf) len buf outs (le_n _)). Qed.
+Print Assumptions tcp_loop_terminates.
